@@ -63,7 +63,7 @@ func runC03(c *Ctx) {
 	serverHandlerReachesWrapConn(c, c.P, "R9")
 	if !importing {
 		importObls(c, "C10", runC10, "X10", func(k string) bool {
-			return containsAny(k, "(*obfs4Conn).serverHandshake", "parseClientHandshake", "WrapConn", "closeAfterDelay")
+			return containsAny(k, "(*obfs4Conn).serverHandshake", "parseClientHandshake", "WrapConn", "closeAfterDelay", "lock-pairing")
 		})
 		// "never answers a replay": the replay filter's own rules
 		importObls(c, "C11", runC11, "X11", func(k string) bool { return true })
